@@ -118,13 +118,13 @@ theorem BuiltRsp.mbap_len {r : Response} {m : Spec.RspMeaning} (hb : BuiltRsp r 
   have he := hb.encodable_iff.mpr hf
   cases hb with
   | custom fc d =>
-    have h1 : (Response.custom fc d).image.length = d.length + 1 := by simp [Response.image]; omega
+    have h1 : (Response.custom fc d).image.length = d.length + 1 := by simp [Response.image]
     have h2 : d.length + 2 < 65536 := hl
     omega
   | writeSingleCoil a =>
     have h1 : (Response.writeSingleCoil a).image.length = 3 := rfl
     omega
-  | _ => have := rsp_image_length_le _ trivial he; omega
+  | _ => have := rsp_image_length_le _ (by trivial) he; omega
 
 /-- a built response that fits is what `ResponsePdu::encode` serialises -/
 theorem BuiltRsp.pdu_encodable {r : Response} {m : Spec.RspMeaning} (hb : BuiltRsp r m) (hf : m.fits) :
